@@ -65,6 +65,17 @@ fn clone_tail(a: array<string>) -> string {
     c.push("z")
     join(c)
 }
+fn juggle(a: array<string>, depth: int) {
+    if depth > 0 and a.len() > 0 {
+        let x = a.pop()
+        work(2)
+        juggle(a, depth - 1)
+        a.push(x)
+    }
+}
+fn consume(x: string, ys: array<string>) -> string {
+    x .. ys.len()
+}
 fn work(n: int) -> int {
     var s = 0
     let junk = []
@@ -89,7 +100,11 @@ fn stmt(rng: &mut Rng, c: &mut u64, small: bool) -> String {
     *c += 1;
     let n = if small { rng.range(1, 3) } else { rng.range(2, 6) };
     let cc = *c;
-    match rng.below(48) {
+    match rng.below(52) {
+        // a value that lives only in the locals of nested call frames while callees allocate
+        48 | 49 => format!("juggle({a}, {})", k + 1),
+        // ... or only on the operand stack while a later argument is being evaluated
+        50 | 51 => format!("if {a}.len() > 0 {{ acc = acc .. consume({a}.pop(), fresh({cc}, 3)) }}"),
         // values held only in a local variable / on the operand stack after leaving their container
         40 | 41 => format!("if {a}.len() > 0 {{ s0 = {a}.pop() }}"),
         42 | 43 => "if nest.len() > 1 {\n    if nest[nest.len() - 1].len() > 0 { s1 = nest.pop().pop() }\n}".to_string(),
